@@ -9,7 +9,7 @@
 From PG Require Import Common.Tactics Model.Typing Proofs.TypingBasics Proofs.TypingApply
                        Proofs.TypingCompat Proofs.TypingExtend Proofs.TypingDict Proofs.TypingApplyDict
                        Proofs.TypingCompatDict Proofs.TypingUnion Proofs.TypingUnionCompat Proofs.TypingTheorems
-                       Proofs.TypingExtendFrozen Proofs.TypingUnionExtend.
+                       Proofs.TypingExtendFrozen Proofs.TypingUnionExtend Proofs.TypingExtendDict.
 Local Open Scope Z_scope.
 
 (* Applying a spec to a value it accepts yields a value it accepts again and maps to itself:
@@ -186,3 +186,44 @@ Theorem C04_extend_union_base_partial : forall q c cs mb c',
   (forall v, total v = true -> conforms c' v -> accepts (SUnion cs mb) v).
 Proof. exact extend_union_base. Qed.
 Print Assumptions C04_extend_union_base_partial.
+
+(* compat is reflexive on specs without Union (a base field a child schema does not override is
+   inherited as it is, and the base field must be compatible with it). *)
+Theorem C04_compat_reflexive : forall q s,
+  no_union s = true -> sizes_ok s = true -> enums_ok s = true -> keys_ok s = true -> compat q s s = true.
+Proof. exact compat_refl. Qed.
+Print Assumptions C04_compat_reflexive.
+
+(* Schema inheritance for Dict specs (Dict._extend / Schema.extend, merged key order as the code
+   builds it: the base's keys in the base's order, overridden fields extended over the base's):
+   when the child declares no new key, the base Dict is compatible with the extended Dict and
+   accepts every value of it.  Field specs: the fragment of the extension theorems (frozen and
+   Enum fields allowed; no Union / nested Dict schema inside a field); const keys and a StrKey()
+   field alike.  (A child that adds keys is covered field by field by
+   C04_schema_extend_shared_fields_partial.) *)
+Theorem C04_extend_dict_schema_partial : forall q fs m bfs mb c',
+  no_quirks q -> frozen m = false -> frozen mb = false ->
+  keys_distinct fs = true -> keys_distinct bfs = true ->
+  Forall (fun kf => goodf (snd kf)) fs ->
+  Forall (fun kf => basef (snd kf) /\ wf (snd kf)) bfs ->
+  (forall kf, In kf fs -> field_of (fst kf) bfs <> None) ->
+  extend q (SDict (Some fs) m) (SDict (Some bfs) mb) = Ok c' ->
+  compat q (SDict (Some bfs) mb) c' = true /\
+  (forall v, total v = true -> conforms c' v -> accepts (SDict (Some bfs) mb) v).
+Proof. exact extend_dict_schema. Qed.
+Print Assumptions C04_extend_dict_schema_partial.
+
+(* Schema.is_compatible is sound (the schema-level clause): if the receiving schema declares itself
+   compatible with the sending one — same keys, compatible field specs — the receiving Dict accepts
+   every value of the sending Dict.  Any quirk flags under [avoids]; nested Dicts, StrKey() fields,
+   Unions with safe dispatch inside the fields. *)
+Theorem C04_schema_compat_sound_partial : forall q fs m ofs mb,
+  union_safe (SDict (Some fs) m) = true -> avoids q (SDict (Some fs) m) = true ->
+  wf (SDict (Some fs) m) -> wf (SDict (Some ofs) mb) ->
+  keys_ok (SDict (Some ofs) mb) = true -> sizes_ok (SDict (Some ofs) mb) = true ->
+  union_plain (SDict (Some ofs) mb) = true ->
+  frozen_ok q m mb = true -> none_ok m mb = true ->
+  schema_compat (compat q) fs ofs = true ->
+  forall v, total v = true -> conforms (SDict (Some ofs) mb) v -> accepts (SDict (Some fs) m) v.
+Proof. exact schema_compat_sound. Qed.
+Print Assumptions C04_schema_compat_sound_partial.
